@@ -1026,8 +1026,12 @@ fn normalised(r: &Result<Message, RepeError>, req_query: &[u8]) -> String {
     }
 }
 
+/// Bytes of an observation: short ones in hex, long ones as `#<length>:<FNV-1a 64>` (the model prints the same).
+fn show_bytes(b: &[u8]) -> String {
+    if b.len() > 256 { format!("#{}:{}", b.len(), fnv(b)) } else { hex(b) }
+}
 fn show_resp(f: &RawFrame) -> String {
-    format!("{},{},{},{},{},{}", f.h.id, f.h.ec, f.h.query_format, hex(&f.query), f.h.body_format, if f.h.ec != 0 { "E".to_string() } else { hex(&f.body) })
+    format!("{},{},{},{},{},{}", f.h.id, f.h.ec, f.h.query_format, show_bytes(&f.query), f.h.body_format, if f.h.ec != 0 { "E".to_string() } else { show_bytes(&f.body) })
 }
 
 // ------------------------------------------------------------------------------------------
@@ -1642,7 +1646,8 @@ fn run_sequence(out: &mut Out, sv: &Servers, probe: &Probes, seqno: usize, reqs:
                     }
                 }
                 let s: Vec<String> = res.iter().map(|x| hout_str(x)).collect();
-                toks = (s[0].clone(), s[1].clone(), if s[2] == s[0] { "=".into() } else { s[2].clone() }, if s[3] == s[1] { "=".into() } else { s[3].clone() });
+                // `=`: the owned outcome equals the borrowed one (`ho`), the bare router's equals the wrapped one's (`hvn`, `hon`)
+                toks = (s[0].clone(), if s[1] == s[0] { "=".into() } else { s[1].clone() }, if s[2] == s[0] { "=".into() } else { s[2].clone() }, if s[3] == s[1] { "=".into() } else { s[3].clone() });
             } else {
                 // handler panics are C16's subject: keep them out of C03 observations
                 out.count("dispatch.probe_panicked_skipped");
@@ -2335,7 +2340,7 @@ fn gen_pressure(r: &mut Rng, base_id: u64) -> Vec<ReqSpec> {
         let spec = match r.below(6) {
             0 | 1 => {
                 // big echo through an inline JSON route
-                let len = *r.pick(&[20_000usize, 70_000, 150_000]);
+                let len = *r.pick(&[4_000usize, 20_000, 70_000, 70_000, 150_000]);
                 let body = format!("\"{}\"", "x".repeat(len)).into_bytes();
                 mk(RawFrame::request(id, false, 1, b"/json", 2, &body))
             }
